@@ -1,4 +1,5 @@
 """C15 SQL filters select exactly the intended rows; values are always bound."""
+import itertools
 import logging
 import random
 import re
@@ -65,6 +66,13 @@ HOSTILE = {"x'y", "'; DROP TABLE t; --", '"q"', "1 OR 1=1", "IS NULL", "is not n
 # values spelled like pieces of the statement itself: their presence in the text proves nothing (that they
 # are BOUND is decided by the multiset of parameters and by the returned rows)
 SQL_WORDS = {"IS NULL", "IS NOT NULL", "IN", "LIKE", "NULL", "%S", "OR", "AND", "NOT", "NOT IN"}
+
+
+# (the application registers its adapter for time stamps, as the sqlite3 documentation recommends since 3.12)
+import datetime as _datetime    # noqa: E402
+sqlite3.register_adapter(_datetime.datetime, lambda d: d.isoformat(" "))
+SCHEMA = "CREATE TABLE t (id INTEGER, n INTEGER, s TEXT, _d INTEGER, b BLOB, x__y INTEGER, ts TIMESTAMP)"
+INSERT = "INSERT INTO t VALUES (:id, :n, :s, :_d, :b, :x__y, :ts)"
 
 
 class Cur:
@@ -144,6 +152,8 @@ def OR(xs):
 def cmp(op, a, b):
     if a is None or b is None:
         return None
+    if type(b).__name__ == 'datetime':
+        b = str(b)
     return {'=': a == b, '!=': a != b, '<': a < b, '>': a > b, '<=': a <= b, '>=': a >= b}[op]
 
 
@@ -186,6 +196,7 @@ def bound_values(cond):
     if k == 'static':
         return []
     _, col, op, val = cond
+    val = as_param(col, val)
     op = op.upper()
     if op in ('=', '!='):
         if val is None:
@@ -272,19 +283,34 @@ def gen_cond(rng, depth=0):
     return ('f', col, op, val)
 
 
+TS_VALUES = ["2024-03-05 23:59:59", "2024-03-05 00:00:00", "2023-12-31 12:00:00", "2024-03-06 00:00:00"]
+
+
+def as_param(col, v):
+    """the value the caller gives for column `col`: time stamps are given as datetime objects (the database stores
+    them the way the standard adapter of the sqlite3 module writes them: 'YYYY-MM-DD HH:MM:SS')"""
+    if col == 'ts' and isinstance(v, str):
+        import datetime
+        return datetime.datetime.strptime(v, "%Y-%m-%d %H:%M:%S")
+    if col == 'ts' and isinstance(v, (list, tuple)):
+        return type(v)(as_param(col, x) for x in v)
+    return v
+
+
 def to_arg(c, rng):
     if c[0] == 'or':
         pos, kw = [], {}
         for x in c[1]:
             # operands 'column = value' may be given as keywords of the group
             if x[0] == 'f' and x[2] == '=' and x[1] not in kw and rng.random() < 0.4:
-                kw[x[1]] = x[3]
+                kw[x[1]] = as_param(x[1], x[3])
             else:
                 pos.append(to_arg(x, rng))
         return SqlMethod._or(*pos, **kw)
     if c[0] == 'static':
         return STATICS[c[1]][0]
     _, col, op, val = c
+    val = as_param(col, val)
     if op == '=' and rng.random() < 0.5:
         return (col, val)
     return (col, op, val) if rng.random() < 0.8 else [col, op, val]
@@ -374,16 +400,25 @@ def run_case(ctx, rng):
     # (id is an ordinary column and the rows are stored in another order: a statement that lost its ORDER BY
     # does not give the requested order by accident)
     # (b holds binary values; x__y is a column whose name has two underscores in the middle)
-    db.execute("CREATE TABLE t (id INTEGER, n INTEGER, s TEXT, _d INTEGER, b BLOB, x__y INTEGER)")
+    # (ts holds time stamps)
+    db.execute(SCHEMA)
     rows = [{'id': i, 'n': rng.choice(INTS), 's': rng.choice(STRS), '_d': rng.choice([0, 0, 1, None]),
              'b': rng.choice(BLOBS), 'x__y': rng.choice([0, 1, 2, None])}
             for i in range(rng.randint(0, 12))]
+    for k, r in enumerate(rows):
+        r['ts'] = (TS_VALUES + [None])[(k * 7 + len(rows) + (r['n'] or 0)) % 5]
     stored = list(rows)
     random.Random(len(rows) * 7 + sum(r['n'] or 0 for r in rows)).shuffle(stored)
-    db.executemany("INSERT INTO t VALUES (:id, :n, :s, :_d, :b, :x__y)", stored)
+    db.executemany(INSERT, stored)
     percent_s = rng.random() < 0.2
     conn = (MysqlLikeConn if percent_s else Conn)(db)
     conds = [gen_cond(rng) for _ in range(rng.choice([0, 1, 1, 2, 2, 3, 4]))]
+    if len(rows) % 4 == 1:
+        # a filter on the time stamp column, the value given as a datetime object
+        k = len(rows) + len(conds)
+        conds.append(('f', 'ts', ['=', '<', '>=', '!=', 'IN'][k % 5],
+                      [TS_VALUES[k % 4], TS_VALUES[(k + 1) % 4]] if k % 5 == 4 else TS_VALUES[k % 4]))
+        ctx.count("filters_with_datetime_values")
     args = []
     for c in conds:
         if rng.random() < 0.15:
@@ -516,7 +551,19 @@ def run_case(ctx, rng):
                         ctx.violation("one-row-method-raises", {"mode": "table." + sub, "rows": len(exp)}, case)
                     got = None
             elif mode == "all":
-                got = [r[0] for r in m.all(conn, *args, **call_kw)]
+                # the rows are taken one by one; after the first one ANOTHER request runs on the same connection
+                # (a nested loop of the caller), then the rest of the first result is taken
+                it = iter(m.all(conn, *args, **call_kw))
+                got = [r[0] for r in itertools.islice(it, 1)]
+                inner = sorted(r[0] for r in m.list(conn))
+                ctx.count("requests_made_while_another_result_was_partly_consumed")
+                if inner != sorted(r['id'] for r in rows):
+                    ctx.violation("rows-differ-from-three-valued-evaluation",
+                                  {"got": inner, "expected": sorted(r['id'] for r in rows),
+                                   "request": "all rows, asked for while another result was partly consumed"}, case)
+                    return case
+                del conn.log[-1]
+                got += [r[0] for r in it]
             elif mode == "scalars":
                 got = list(m.list(conn, *args, _as_scalars=True, **call_kw))
             else:
@@ -575,6 +622,12 @@ def run_case(ctx, rng):
     # the multiset of bound values is compared; that placeholders and values are in MATCHING order
     # is decided by the rows sqlite returns (conditions may legitimately be emitted in another order)
     def key(v):
+        # (a time stamp may be bound as the object the caller gave or in a text form of it: which text form is
+        # right is decided by the rows)
+        if type(v).__name__ == 'datetime':
+            return ("time stamp", str(v))
+        if isinstance(v, str) and re.fullmatch(r"\d{4}-\d\d-\d\d[ T]\d\d:\d\d:\d\d", v):
+            return ("time stamp", v.replace("T", " "))
         return (type(v).__name__, repr(v))
     if sorted(map(key, params)) != sorted(map(key, want_params)):
         ctx.violation("bound-values-differ-from-condition-values", {"sql": sql, "params": params,
@@ -611,10 +664,9 @@ def replay(ctx, case):
     # replays re-run the recorded conditions on the recorded rows through `list`
     ctx.evaluated()
     db = sqlite3.connect(":memory:")
-    db.execute("CREATE TABLE t (id INTEGER, n INTEGER, s TEXT)")
-    by_id = {r['id']: r for r in case["rows"]}
-    db.executemany("INSERT INTO t VALUES (:id, :n, :s)",
-                   [by_id[i] for i in case.get("stored_order", sorted(by_id))])
+    db.execute(SCHEMA)
+    by_id = {r['id']: dict({'_d': None, 'b': None, 'x__y': None, 'ts': None}, **r) for r in case["rows"]}
+    db.executemany(INSERT, [by_id[i] for i in case.get("stored_order", sorted(by_id))])
     conn = (MysqlLikeConn if case.get("percent_s") else Conn)(db)
     import random
     rng = random.Random(0)
@@ -631,5 +683,10 @@ def replay(ctx, case):
                                                                    "stmt": conn.log[-1]}, case)
     sql, params = conn.log[-1]
     want_params = [v for c in case["conds"] for v in bound_values(c)]
-    if sorted(map(repr, params)) != sorted(map(repr, want_params)):
+    def key(v):
+        if type(v).__name__ == 'datetime' or (isinstance(v, str) and
+                                              re.fullmatch(r"\d{4}-\d\d-\d\d[ T]\d\d:\d\d:\d\d", v)):
+            return "time stamp " + str(v).replace("T", " ")
+        return repr(v)
+    if sorted(map(key, params)) != sorted(map(key, want_params)):
         ctx.violation("bound-values-differ-from-condition-values", {"sql": sql, "params": params}, case)
